@@ -103,7 +103,7 @@ def register(ix):
     # ------------------------------------------------------------------ construction
     LS = "lena/core/lena_sequence.py"
     ix.add_class(ClassSpec("LenaSequence", LS, fields={}))
-    ix.add_class(ClassSpec("Sequence0", SQ, fields={}, alias_of="Sequence", bases=["LenaSequence"]))
+    ix.add_class(ClassSpec("Sequence0", SQ, fields={"_data_seq": "Lst[Obj]", "_seq": "Lst[Obj]"}, alias_of="Sequence", bases=["LenaSequence"]))
     ix.classes["Sequence"].bases = ["LenaSequence"]
     # assumed here, verified under C13: threads the static context; may store / raise LenaKeyError; touches no data element
     ix.add(Contract(LS, "LenaSequence._set_context", props=[], trusted=True,
@@ -126,7 +126,7 @@ def register(ix):
                     "not %s and not callable(args[%d]) implies self._data_seq[%d].run is class_method(self._data_seq[%d], '_fc_run')" % (hr, i, i, i)]
         bad = " or ".join("not (%s or %s)" % (HAS_RUN.format(i=i), CONV.format(i=i)) for i in range(n)) or "False"
         return Contract(SQ, "Sequence.__init__", name="Sequence.__init__[%d data args]" % n,
-                        params={"self": "Self[Sequence0]", "args": "Tuple[%s]" % ",".join(["Obj"] * n)},
+                        params={"self": "Self[Sequence0]", "args": "Tuple[%s]" % ",".join(["Obj"] * n)}, vararg="args",
                         requires=nodata, raises={"LenaTypeError": bad}, ensures=ens,
                         modifies=["self._name", "self._seq", "self._data_seq", "self._static_context", "self._exc"],
                         notes="argument lists of length %d (the per-argument loop is unrolled; every element kind)" % n)
@@ -134,9 +134,32 @@ def register(ix):
                     params={"self": "Self[LenaSequence]", "args": "Any"}))
     ix.add(Contract(SQ, "Sequence.__init__", props=["C01"], cases=[seq_init(0), seq_init(1), seq_init(2),
            Contract(SQ, "Sequence.__init__", name="Sequence.__init__[no-data element dropped]",
-                    params={"self": "Self[Sequence0]", "args": "Tuple[Obj,Obj]"},
+                    params={"self": "Self[Sequence0]", "args": "Tuple[Obj,Obj]"}, vararg="args",
                     requires=["has_attr(args[0], '_has_no_data')", "not has_attr(args[1], '_has_no_data')",
                               HAS_RUN.format(i=1)],
                     ensures=["len(self._seq) == 2", "len(self._data_seq) == 1", "self._data_seq[0] is args[1]"],
                     modifies=["self._name", "self._seq", "self._data_seq", "self._static_context", "self._exc"])]))
 
+    # ------------------------------------------------------------------ Source.__init__
+    ix.add_class(ClassSpec("Source", SO, fields={}, bases=["LenaSequence"]))
+    SRC_MOD = ["self._name", "self._seq", "self._data_seq", "self._static_context", "self._exc", "self._first", "self._tail"]
+    ix.add(Contract(SO, "Source.__init__", props=["C01"], cases=[
+        # "placing them after the first element of a Source never changes the result": the Source keeps the first
+        # element ITSELF (every call starts a new flow from it) and its tail is the Sequence of the other arguments
+        Contract(SO, "Source.__init__", name="Source.__init__[callable first, one tail element]",
+                 params={"self": "Self[Source]", "args": "Tuple[Obj,Obj]"}, vararg="args",
+                 requires=["callable(args[0])", "not has_attr(args[0], '_has_no_data')", "not has_attr(args[1], '_has_no_data')",
+                           HAS_RUN.format(i=1)],
+                 ensures=["self._first is args[0]", "is_instance_of(self._tail, 'Sequence')",
+                          "len(self._tail._data_seq) == 1", "self._tail._data_seq[0] is args[1]"],
+                 modifies=SRC_MOD),
+        Contract(SO, "Source.__init__", name="Source.__init__[iterable first, one tail element]",
+                 params={"self": "Self[Source]", "args": "Tuple[Lst[V],Obj]"}, vararg="args",
+                 requires=["not has_attr(args[1], '_has_no_data')", HAS_RUN.format(i=1)],
+                 ensures=["self._first is args[0]", "is_instance_of(self._tail, 'Sequence')",
+                          "len(self._tail._data_seq) == 1", "self._tail._data_seq[0] is args[1]"],
+                 modifies=SRC_MOD),
+        Contract(SO, "Source.__init__", name="Source.__init__[no arguments]",
+                 params={"self": "Self[Source]", "args": "Tuple[]"}, vararg="args",
+                 raises={"LenaTypeError": "True"}),
+    ]))
